@@ -22,6 +22,22 @@ Definition hdr_code (h : hdr_type) : N :=
 (* roothash/api/api.go:35 *)
 Definition TimeoutNever : Z := 0%Z.
 
+(* roothash/api/liveness.go:4 LivenessStatistics, counters in committee order *)
+Record liveness := mkLV {
+  lv_total : N;                   (* TotalRounds *)
+  lv_live : list N;               (* LiveRounds *)
+  lv_fin : list N;                (* FinalizedProposals *)
+  lv_miss : list N }.             (* MissedProposals *)
+(* liveness.go:29 *)
+Definition new_liveness (n : nat) : liveness := mkLV 0 (repeat 0 n) (repeat 0 n) (repeat 0 n).
+(* counter[i]++ ; out of range = Go index panic, the list is returned unchanged *)
+Fixpoint inc_nth (i : nat) (l : list N) : list N :=
+  match l, i with
+  | [], _ => []
+  | x :: r, O => (x + 1) :: r
+  | x :: r, S j => x :: inc_nth j r
+  end.
+
 Record rt_state := mkRS {
   rs_round : N;                   (* LastBlock.Header.Round *)
   rs_root : N;                    (* LastBlock.Header.StateRoot, interned *)
@@ -29,14 +45,22 @@ Record rt_state := mkRS {
   rs_pool : option pool;          (* CommitmentPool *)
   rs_committee : option committee;
   rs_suspended : bool;
-  rs_next_timeout : Z }.
+  rs_next_timeout : Z;
+  rs_io : N;                      (* LastBlock.Header.IORoot *)
+  rs_prev : N;                    (* LastBlock.Header.PreviousHash *)
+  rs_msgs : N;                    (* LastBlock.Header.MessagesHash *)
+  rs_live : option liveness;      (* LivenessStatistics (nil until the first finalization attempt of an epoch) *)
+  rs_results : list N * list N }. (* last normal round results: good / bad compute nodes *)
 
 Record rt_params := mkRP {
   rp_strag : N;                   (* Runtime.Executor.AllowedStragglers *)
   rp_round_timeout : Z;           (* Runtime.Executor.RoundTimeout *)
   rp_max_msgs : N;
   rp_hashes : list (N * N);       (* round -> encoded hash of the runtime block of that round *)
-  rp_roots : list (N * N) }.      (* vote hash -> state root of that header *)
+  rp_roots : list (N * N);        (* vote hash -> state root of that header *)
+  rp_ios : list (N * N);          (* vote hash -> IO root of that header *)
+  rp_mhs : list (N * N);          (* vote hash -> messages hash of that header *)
+  rp_empty : N }.                 (* the empty hash *)
 
 Definition lookup (k : N) (l : list (N * N)) : N := match aget k l with Some v => v | None => 0 end.
 
@@ -44,54 +68,138 @@ Inductive app_event :=
 | EvFinalized (round : N)
 | EvDiscrepancy (round rank : N) (timeout : bool).
 
-(* finalization.go:279 finalizeBlock *)
-Definition finalize_block (st : rt_state) (ht : hdr_type) (root : option N) : rt_state * list app_event :=
-  let round := (rs_round st + 1) mod W64 in                                (* block.NewEmptyBlock *)
-  let sr := match ht, root with HNormal, Some r => r | _, _ => rs_root st end in   (* :283-289; state root unchanged otherwise *)
+(* finalization.go:279 finalizeBlock; hdr = (state root, IO root, messages hash) of the chosen
+   commitment's header for a Normal block.  block.NewEmptyBlock (block.go:33): round + 1,
+   previous hash = hash of the last block, state root unchanged, IO root / messages hash empty. *)
+Definition finalize_block (prm : rt_params) (st : rt_state) (ht : hdr_type) (hdr : option (N * N * N))
+  : rt_state * list app_event :=
+  let round := (rs_round st + 1) mod W64 in
+  let '(sr, io, mh) :=
+    match ht, hdr with
+    | HNormal, Some x => x                                                 (* :283-289 *)
+    | _, _ => (rs_root st, rp_empty prm, rp_empty prm)
+    end in
   (mkRS round sr ht
         (match ht with HSuspended => None | _ => Some new_pool end)       (* :317-322 *)
         (rs_committee st) (rs_suspended st)
-        TimeoutNever,                                                      (* :325-328 *)
+        TimeoutNever                                                       (* :325-328 *)
+        io (lookup (rs_round st) (rp_hashes prm)) mh
+        (rs_live st) (rs_results st),
    [EvFinalized round]).
+
+(* scheduler/api/api.go:211 SchedulerIdx *)
+Fixpoint worker_count (c : committee) : N :=
+  match c with
+  | (ro, _) :: r => if is_rworker ro then 1 + worker_count r else 0
+  | [] => 0
+  end.
+Definition scheduler_idx (c : committee) (round rank : N) : option N :=
+  let total := worker_count c in
+  if total <=? rank then None
+  else Some ((rank + total - round mod total) mod total).
+
+(* finalization.go:198-243: the loop computing good / bad compute nodes and LiveRounds; a node
+   holding several roles is counted once, at its first position (the [seen] map) *)
+Fixpoint live_loop (votes : list (N * option N)) (sv : N) (ms : committee) (i : nat) (seen : list N)
+         (live : list N) (good bad : list N) : list N * list N * list N :=
+  match ms with
+  | [] => (live, good, bad)
+  | (_, k) :: r =>
+      match aget k votes with
+      | Some (Some v) =>
+          if existsb (N.eqb k) seen then live_loop votes sv r (S i) seen live good bad
+          else if v =? sv
+               then live_loop votes sv r (S i) (k :: seen) (inc_nth i live) (good ++ [k]) bad
+               else live_loop votes sv r (S i) (k :: seen) live good (bad ++ [k])
+      | _ => live_loop votes sv r (S i) seen live good bad
+      end
+  end.
+
+Definition live_of (st : rt_state) (c : committee) : liveness :=
+  match rs_live st with Some l => l | None => new_liveness (length c) end.   (* :77-80 *)
 
 Inductive tf_result :=
 | TFOk (st : rt_state) (evs : list app_event)
 | TFErrDiscrepancy            (* finalization.go:134-138: second ErrDiscrepancyDetected is returned *)
 | TFErrNilCommitment          (* nil dereference of sc.Commitment *)
-| TFErrPanic.                 (* the pool panicked *)
+| TFErrPanic                  (* the pool panicked *)
+| TFErrNoWorkers.             (* finalization.go:153, :348: no primary scheduler *)
+
+Definition with_pool (s : rt_state) (p2 : pool) (l : liveness) (res : list N * list N) : rt_state :=
+  mkRS (rs_round s) (rs_root s) (rs_htype s) (Some p2) (rs_committee s) (rs_suspended s)
+       (rs_next_timeout s) (rs_io s) (rs_prev s) (rs_msgs s) (Some l) res.
+
+(* finalization.go:140-276: the round has been finalized with scheduler commitment [sc] whose own
+   commitment is [ec].  None = no primary scheduler (error return at :153). *)
+Definition finalize_normal (prm : rt_params) (c : committee) (s : rt_state) (p2 : pool) (lv : liveness)
+           (sc : sched_commitment) (ec : commitment) : option (rt_state * list app_event) :=
+  let round := (rs_round s + 1) mod W64 in
+  match scheduler_idx c round 0 with                                       (* :150 *)
+  | None => None
+  | Some first =>
+      let fi := N.to_nat first in
+      let first_is_sched :=
+        match nth_error c fi with
+        | Some (_, k) => k =? ec_sched ec | None => false end in           (* :157-162 *)
+      let '(live, good, bad) :=
+        live_loop (sc_votes sc) (ec_vote ec) c 0 [] (lv_live lv) [] [] in  (* :196-243 *)
+      let lv' := mkLV (lv_total lv + 1) live                               (* :147 *)
+                      (if first_is_sched then inc_nth fi (lv_fin lv) else lv_fin lv)
+                      (if first_is_sched then lv_miss lv else inc_nth fi (lv_miss lv)) in
+      let v := ec_vote ec in
+      Some (finalize_block prm (with_pool s p2 lv' (good, bad)) HNormal
+              (Some (lookup v (rp_roots prm), lookup v (rp_ios prm), lookup v (rp_mhs prm))))  (* :276 *)
+  end.
+
+(* finalization.go:331 failRound *)
+Definition fail_round (prm : rt_params) (c : committee) (s : rt_state) (p2 : pool) (lv : liveness)
+  : option (rt_state * list app_event) :=
+  let round := (rs_round s + 1) mod W64 in
+  match scheduler_idx c round 0 with                                       (* :346 *)
+  | None => None
+  | Some first =>
+      let lv' := mkLV (lv_total lv) (lv_live lv) (lv_fin lv)
+                      (inc_nth (N.to_nat first) (lv_miss lv)) in           (* :351 *)
+      Some (finalize_block prm (with_pool s p2 lv' (rs_results s)) HRoundFailed None)   (* :353 *)
+  end.
+
+(* finalization.go:81-115: ProcessCommitments, and on a detected discrepancy the event, the
+   re-armed timeout and the second ProcessCommitments *)
+Definition tf_decide (H : Z) (prm : rt_params) (c : committee) (p : pool) (st : rt_state)
+           (timeout : bool) : rt_state * pool * outcome * list app_event :=
+  let round := (rs_round st + 1) mod W64 in
+  let '(p1, o1) := process c p (rp_strag prm) timeout in                   (* :81 *)
+  match o1 with
+  | PDiscrepancy =>                                                        (* :83 *)
+      let nt := (H + (rp_round_timeout prm * 15) / 10)%Z in                (* :104 *)
+      let timeout' := (nt =? H)%Z in                                       (* :111 *)
+      let '(p2, o2) := process c p1 (rp_strag prm) timeout' in             (* :114 *)
+      (mkRS (rs_round st) (rs_root st) (rs_htype st) (rs_pool st) (rs_committee st)
+            (rs_suspended st) nt (rs_io st) (rs_prev st) (rs_msgs st) (rs_live st) (rs_results st),
+       p2, o2, [EvDiscrepancy round (hr p1) timeout])
+  | _ => (st, p1, o1, [])
+  end.
+
+Definition opt_result (ev : list app_event) (r : option (rt_state * list app_event)) : tf_result :=
+  match r with
+  | Some (st2, e2) => TFOk st2 (ev ++ e2)
+  | None => TFErrNoWorkers
+  end.
 
 (* finalization.go:67 tryFinalizeRoundInsideTx (pool and committee present) *)
 Definition try_finalize (H : Z) (prm : rt_params) (c : committee) (p : pool) (st : rt_state)
            (timeout : bool) : tf_result :=
-  let round := (rs_round st + 1) mod W64 in
-  let '(p1, o1) := process c p (rp_strag prm) timeout in                   (* :81 *)
-  let '(st1, p2, o2, ev) :=
-    match o1 with
-    | PDiscrepancy =>                                                      (* :83 *)
-        let nt := (H + (rp_round_timeout prm * 15) / 10)%Z in              (* :104 *)
-        let timeout' := (nt =? H)%Z in                                     (* :111 *)
-        let '(p2, o2) := process c p1 (rp_strag prm) timeout' in           (* :114 *)
-        (mkRS (rs_round st) (rs_root st) (rs_htype st) (rs_pool st) (rs_committee st)
-              (rs_suspended st) nt,
-         p2, o2, [EvDiscrepancy round (hr p1) timeout])
-    | _ => (st, p1, o1, [])
-    end in
-  let with_pool (s : rt_state) :=
-    mkRS (rs_round s) (rs_root s) (rs_htype s) (Some p2) (rs_committee s) (rs_suspended s)
-         (rs_next_timeout s) in
+  let lv := live_of st c in                                                 (* :77-80 *)
+  let '(st1, p2, o2, ev) := tf_decide H prm c p st timeout in
   match o2 with
   | POk sc =>
       match sc_commit sc with
       | None => TFErrNilCommitment
-      | Some ec =>
-          let '(st2, e2) := finalize_block (with_pool st1) HNormal
-                                           (Some (lookup (ec_vote ec) (rp_roots prm))) in  (* :276 *)
-          TFOk st2 (ev ++ e2)
+      | Some ec => opt_result ev (finalize_normal prm c st1 p2 lv sc ec)
       end
-  | PStillWaiting => TFOk (with_pool st1) ev                               (* :120-126 *)
-  | PNoScheduler | PBadScheduler | PInsufficientVotes =>                   (* :127-132 failRound *)
-      let '(st2, e2) := finalize_block (with_pool st1) HRoundFailed None in
-      TFOk st2 (ev ++ e2)
+  | PStillWaiting => TFOk (with_pool st1 p2 lv (rs_results st1)) ev        (* :120-126 *)
+  | PNoScheduler | PBadScheduler | PInsufficientVotes =>                   (* :127-132 *)
+      opt_result ev (fail_round prm c st1 p2 lv)
   | PDiscrepancy => TFErrDiscrepancy
   | PPanic => TFErrPanic
   end.
@@ -137,7 +245,7 @@ Definition executor_commit (H : Z) (prm : rt_params) (st : rt_state) (vcs : list
         let nt := if hr p =? hr p1 then rs_next_timeout st
                   else (H + rp_round_timeout prm)%Z in                     (* :135-151 *)
         (mkRS (rs_round st) (rs_root st) (rs_htype st) (Some p1) (rs_committee st)
-              (rs_suspended st) nt, 0, true)                               (* :159, :172 *)
+              (rs_suspended st) nt (rs_io st) (rs_prev st) (rs_msgs st) (rs_live st) (rs_results st), 0, true)                               (* :159, :172 *)
       else (st, code, false)          (* the transaction fails, nothing is stored *)
   end
   end.
@@ -161,15 +269,18 @@ Fixpoint run_txs (H : Z) (prm : rt_params) (st : rt_state) (txs : list (list vco
   end.
 
 (* roothash.go:129 onRuntimeCommitteeChanged *)
-Definition begin_block (st : rt_state) (ep : option (option committee)) : rt_state * list app_event :=
+Definition begin_block (prm : rt_params) (st : rt_state) (ep : option (option committee))
+  : rt_state * list app_event :=
   match ep with
   | None => (st, [])
   | Some None =>
-      let '(s, e) := finalize_block st HSuspended None in                 (* :219 *)
-      (mkRS (rs_round s) (rs_root s) (rs_htype s) (rs_pool s) None true (rs_next_timeout s), e)
+      let '(s, e) := finalize_block prm st HSuspended None in             (* :219 *)
+      (mkRS (rs_round s) (rs_root s) (rs_htype s) (rs_pool s) None true (rs_next_timeout s)
+            (rs_io s) (rs_prev s) (rs_msgs s) None (rs_results s), e)     (* :243 liveness cleared *)
   | Some (Some c) =>
-      let '(s, e) := finalize_block st HEpochTransition None in           (* :233 *)
-      (mkRS (rs_round s) (rs_root s) (rs_htype s) (rs_pool s) (Some c) false (rs_next_timeout s), e)
+      let '(s, e) := finalize_block prm st HEpochTransition None in       (* :233 *)
+      (mkRS (rs_round s) (rs_root s) (rs_htype s) (rs_pool s) (Some c) false (rs_next_timeout s)
+            (rs_io s) (rs_prev s) (rs_msgs s) None (rs_results s), e)
   end.
 
 Inductive end_result :=
@@ -180,6 +291,7 @@ Definition tf_end (r : tf_result) : end_result :=
   match r with
   | TFOk s e => EndOk s e
   | TFErrDiscrepancy => EndHalt 2 | TFErrNilCommitment => EndHalt 3 | TFErrPanic => EndHalt 4
+  | TFErrNoWorkers => EndHalt 5
   end.
 
 (* finalization.go:36 tryFinalizeRound: getRuntimeState, then finalize *)
@@ -211,11 +323,14 @@ Record block_obs := mkBO {
   bo_halt : N;                 (* 0 = EndBlock succeeded *)
   bo_round : N; bo_htype : N; bo_root : N;
   bo_next_timeout : Z; bo_suspended : bool;
-  bo_pool : option (N * bool) }.
+  bo_pool : option (N * bool);
+  bo_io : N; bo_prev : N; bo_msgs : N;
+  bo_live : option (N * list N * list N * list N);
+  bo_results : N * N }.        (* number of good / bad compute nodes of the last normal round *)
 
 Definition app_block (prm : rt_params) (st : rt_state) (b : ablock) : rt_state * block_obs :=
   let H := ab_height b in
-  let '(st1, eb) := begin_block st (ab_epoch b) in
+  let '(st1, eb) := begin_block prm st (ab_epoch b) in
   let '(st2, codes, fin) := run_txs H prm st1 (ab_txs b) false in
   let '(st3, ee, halt) :=
     match end_block H prm st2 fin with
@@ -224,7 +339,11 @@ Definition app_block (prm : rt_params) (st : rt_state) (b : ablock) : rt_state *
     end in
   (st3, mkBO codes eb ee halt (rs_round st3) (hdr_code (rs_htype st3)) (rs_root st3)
              (rs_next_timeout st3) (rs_suspended st3)
-             (match rs_pool st3 with Some p => Some (hr p, disc p) | None => None end)).
+             (match rs_pool st3 with Some p => Some (hr p, disc p) | None => None end)
+             (rs_io st3) (rs_prev st3) (rs_msgs st3)
+             (match rs_live st3 with
+              | Some l => Some (lv_total l, lv_live l, lv_fin l, lv_miss l) | None => None end)
+             (N.of_nat (length (fst (rs_results st3))), N.of_nat (length (snd (rs_results st3))))).
 
 Fixpoint app_run (prm : rt_params) (st : rt_state) (bs : list ablock) : list block_obs :=
   match bs with
@@ -236,11 +355,12 @@ Definition app_states (prm : rt_params) (st : rt_state) (bs : list ablock) : rt_
   fold_left (fun s b => fst (app_block prm s b)) bs st.
 
 (* roothash.go:343 onNewRuntime: suspended, genesis block, no timeout *)
-Definition new_runtime (round root : N) : rt_state :=
-  mkRS round root HNormal None None true TimeoutNever.
+Definition new_runtime (prm : rt_params) (round root : N) : rt_state :=
+  mkRS round root HNormal None None true TimeoutNever
+       (rp_empty prm) (rp_empty prm) (rp_empty prm) None ([], []).
 
 Definition run_acase (x : rt_params * (N * N) * list ablock) : list block_obs :=
-  match x with (prm, (round, root), bs) => app_run prm (new_runtime round root) bs end.
+  match x with (prm, (round, root), bs) => app_run prm (new_runtime prm round root) bs end.
 
 (* ---- comparison ---- *)
 Definition ev_eqb (a b : app_event) : bool :=
@@ -255,13 +375,24 @@ Definition opool_eqb (a b : option (N * bool)) : bool :=
   | Some (h1, d1), Some (h2, d2) => (h1 =? h2) && Bool.eqb d1 d2
   | _, _ => false
   end.
+Definition olive_eqb (a b : option (N * list N * list N * list N)) : bool :=
+  match a, b with
+  | None, None => true
+  | Some (t1, l1, f1, m1), Some (t2, l2, f2, m2) =>
+      (t1 =? t2) && list_eqb N.eqb l1 l2 && list_eqb N.eqb f1 f2 && list_eqb N.eqb m1 m2
+  | _, _ => false
+  end.
 Definition bo_eqb (a b : block_obs) : bool :=
   list_eqb N.eqb (bo_codes a) (bo_codes b) && list_eqb ev_eqb (bo_begin a) (bo_begin b)
   && list_eqb ev_eqb (bo_end a) (bo_end b) && (bo_halt a =? bo_halt b)
   && (bo_round a =? bo_round b) && (bo_htype a =? bo_htype b) && (bo_root a =? bo_root b)
   && (bo_next_timeout a =? bo_next_timeout b)%Z && Bool.eqb (bo_suspended a) (bo_suspended b)
-  && opool_eqb (bo_pool a) (bo_pool b).
+  && opool_eqb (bo_pool a) (bo_pool b)
+  && (bo_io a =? bo_io b) && (bo_prev a =? bo_prev b) && (bo_msgs a =? bo_msgs b)
+  && olive_eqb (bo_live a) (bo_live b)
+  && (fst (bo_results a) =? fst (bo_results b)) && (snd (bo_results a) =? snd (bo_results b)).
 Definition acase_eqb (a b : list block_obs) : bool := list_eqb bo_eqb a b.
 Definition noPool : option (N * bool) := None.
 Definition noEpoch : option (option committee) := None.
 Definition noCommittee : option committee := None.
+Definition noLive : option (N * list N * list N * list N) := None.
